@@ -24,7 +24,8 @@ def cases(draw, tier):
     lanes = draw(st.integers(1, 4 if big else 2))
     n = nl['pi'] + len(nl['st'])
     waves = draw(W.input_waves(n, lanes))
-    return dict(nl=nl, lanes=lanes, waves=waves, dpool=draw(W.DELAY_POOL), caps=draw(W.CAPS), f64=draw(st.booleans()),
+    pre = draw(st.one_of(st.none(), W.input_waves(n, lanes)))
+    return dict(nl=nl, lanes=lanes, waves=waves, pre=pre, dpool=draw(W.DELAY_POOL), caps=draw(W.CAPS), f64=draw(st.booleans()),
                 strip_forks=draw(st.booleans()), pol_indep=draw(st.booleans()),
                 shift=draw(st.integers(-4096, 8192)), scale=draw(st.integers(-6, 6)), cuda=False)
 
@@ -36,6 +37,9 @@ def run(case, b, scale=1.0, shift=0.0):
                           polarity_independent=case['pol_indep'], scale=scale)
     sim = WaveSim(b.c, delays, sims=case['lanes'], c_caps=W.caps_for(nlines, case['caps']), c_reuse=False,
                   strip_forks=case['strip_forks'])
+    if case.get('pre'):         # an earlier, unrelated assignment on the same simulator object must leave no trace
+        W.apply_inputs(sim, b, case['nl'], case['pre'])
+        sim.c_prop(); sim.c_to_s()
     W.apply_inputs(sim, b, case['nl'], case['waves'], scale=scale, shift=shift)
     sim.c_prop()
     sim.c_to_s()
@@ -156,6 +160,7 @@ def prop(case):
     if multi_switch: labels.append('gate_with>=2_switching_operands')
     if case['pol_indep']: labels.append('polarity_independent')
     if case['strip_forks']: labels.append('strip_forks')
+    if case.get('pre'): labels.append('simulator_reused')
     if any(w['ovl'] for ww in waves for w in ww): labels.append('overflow')
     return Obs(busy and multi_switch, labels, checks=3 * len(b.c.lines) * lanes)
 
